@@ -285,7 +285,7 @@ class Frame():
 
         for row in range(len(self.stress_tensor[1][0])):
             for column in range(len(self.stress_tensor[1][1])):
-                principal_component = np.linalg.eig(self.stress_tensor[0][f"{row}{column}"])
+                principal_component = np.linalg.eig(self.stress_tensor[0][(row, column)])
                 self.principal_stress[(self.stress_tensor[1][0][row], 
                                             self.stress_tensor[1][1][column])] = principal_component
         
